@@ -15,8 +15,12 @@ if [ "${RUN_SUITE:-0}" = 1 ]; then
   ( cd "$WT" && GOFLAGS= go build ./... && GOFLAGS= go test -vet=off -count=1 ./x/... 2>&1 | grep -v "no test files" | tail -30 )
 fi
 # mutant builds fill the build cache quickly (and a large sandbox makes snapshots fail): trim it
-if [ "$(du -sm /verif/.cache/go-build 2>/dev/null | cut -f1)" -gt 8000 ] 2>/dev/null; then GOCACHE=/verif/.cache/go-build GOFLAGS= go clean -cache; fi
-if [ "$(du -sm /root/.cache/go-build 2>/dev/null | cut -f1)" -gt 8000 ] 2>/dev/null; then GOFLAGS= go clean -cache; fi
+# (only on request: cleaning while another build runs makes that build fail — MUTEST_TRIM=1 is set by the
+# sequential drivers seedregress.sh / mutsweep.py, not by hand-started runs)
+if [ "${MUTEST_TRIM:-0}" = 1 ]; then
+  if [ "$(du -sm /verif/.cache/go-build 2>/dev/null | cut -f1)" -gt 12000 ] 2>/dev/null; then GOCACHE=/verif/.cache/go-build GOFLAGS= go clean -cache; fi
+  if [ "$(du -sm /root/.cache/go-build 2>/dev/null | cut -f1)" -gt 12000 ] 2>/dev/null; then GOFLAGS= go clean -cache; fi
+fi
 mkdir -p "$VD"
 rsync -a --exclude .cache --exclude evidence --exclude replays --exclude .git "${VERIF_SRC:-/verif}/" "$VD/"
 export VERIF_DIR=$VD VERIF_REPO=$WT GOCACHE=/verif/.cache/go-build
